@@ -13,7 +13,8 @@ RULE = ('Hypothesis draws a list of 0-30 items (attributes n = numeric strings i
         '(xsl:for-each | xsl:apply-templates). The body writes id, position(), last() per processed node. Oracle (validity predicate, key values computed '
         'by the independent XPath reference): the output is a permutation of the selected nodes; every adjacent pair is ordered lexicographically under '
         'the per-key comparators (number: NaN first when ascending, -0 = 0; text: code-point order on the restricted alphabet); nodes equal on all keys '
-        'keep document order; position() = 1..n, last() = n. Non-trivial: >= 5 nodes and >= 2 nodes tie on the first key. distinct = case text.')
+        'keep document order; position() = 1..n, last() = n. Non-trivial: >= 5 nodes and >= 2 nodes tie on the first key. distinct = case text.'
+        ' In a third of the cases the text values differ in case only (a/A/ab/Ab/aB...), every text key has lang="en" and a drawn case-order; such keys are compared by a collation key (letters without case first, digits before letters, a prefix before the longer string, then case position by position: lower case first unless case-order="upper-first").')
 ASSUMPTIONS = ['ICU collation of strings over [a-z0-9] equals code-point order (verified by an ad-hoc run of 600 cases); other collation is not judged',
                'vf.ref_xpath computes the key values']
 
